@@ -1428,6 +1428,7 @@ def gen_loop(node, code, codegen):
 
     if node.kind.startswith('loop_'):
         codegen.gen_code_for_node(node.cond, code)
+        gen_code_for_conv(expr.Type.INTEGER, node.cond, code, codegen)
         if node.kind == 'loop_while':
             code.add(('not',))
         code.add(('jz', do_label))
